@@ -18,7 +18,7 @@ import time
 
 import z3
 
-from .symval import (Coll, NR, ArrC, ContractError, DictC, ExcVal, Func, I, ListC, MaybeNone, Method, Module, Obj, Opaque,
+from .symval import (Coll, MapC, NR, ArrC, ContractError, DictC, ExcVal, Func, I, ListC, MaybeNone, Method, Module, Obj, Opaque,
                      R, Bo, Ref, SeqC, Sort, State, TStr, Unsupported, fresh, rv)
 from .report import REPO
 
@@ -180,6 +180,8 @@ def to_z3(v):
         return TStr.lit(v)
     if z3.is_expr(v):
         return v
+    if isinstance(v, MaybeNone):
+        return to_z3(v.value)       # used on paths where `is not None` has been established
     raise ContractError('no z3 form for %r' % (v,))
 
 
@@ -413,6 +415,8 @@ class Engine:
         if isinstance(ca, SeqC) and isinstance(cb, SeqC):
             k = fresh('k', I)
             return zand(ca.n == cb.n, z3.ForAll([k], z3.Implies(z3.And(k >= 0, k < ca.n), ca.arr[k] == cb.arr[k])))
+        if isinstance(ca, MapC) and isinstance(cb, MapC):
+            return zand(ca.n == cb.n, ca.dom == cb.dom, ca.val == cb.val)
         if isinstance(ca, ListC) and isinstance(cb, ListC):
             if len(ca.items) != len(cb.items):
                 return False
@@ -752,6 +756,11 @@ class Engine:
                 if anyn:
                     nans = z3.If(g, c.nans if c.nans is not None else z3.K(I, z3.BoolVal(False)), nans)
             return SeqC(arr, n, nans)
+        if all(isinstance(c, MapC) for c in cs):
+            dom, val, n = cs[-1].dom, cs[-1].val, cs[-1].n
+            for g, c in zip(reversed(guards[:-1]), reversed(cs[:-1])):
+                dom, val, n = z3.If(g, c.dom, dom), z3.If(g, c.val, val), z3.If(g, c.n, n)
+            return MapC(dom, val, n)
         if all(isinstance(c, ListC) for c in cs) and all(len(c.items) == len(first.items) for c in cs):
             return ListC([self.merge_vals(guards, [c.items[i] for c in cs], states, m, fork_locs)
                           for i in range(len(first.items))])
@@ -984,6 +993,10 @@ class Engine:
             n = fresh(name + '.len', I)
             st.assume(n >= 0)
             return SeqC(fresh(name, c.arr.sort()), n, None if c.nans is None else fresh(name + '.nans', z3.ArraySort(I, Bo)))
+        if isinstance(c, MapC):
+            n = fresh(name + '.size', I)
+            st.assume(n >= 0)
+            return MapC(fresh(name + '.dom', c.dom.sort()), fresh(name + '.val', c.val.sort()), n)
         if isinstance(c, ListC):
             if all(isinstance(x, (int, float, NR)) and not isinstance(x, bool) for x in c.items):
                 # a python list of numbers that is grown inside a loop: symbolic length from here on
@@ -1085,8 +1098,6 @@ class Engine:
                 self.assign(n.target, (i, item) if enum else item, s)
             test_fn = lambda s: s.env[idx_name] < coll.n  # noqa
             return self.cut_for(n, st, spec, lid, idx_name, test_fn, pre_body, z3.IntVal(0), lambda s: coll.n)
-        if enum:
-            raise Unsupported('enumerate over a non-abstract iterable with an invariant')
         if isinstance(seqv, Ref) and isinstance(st.content(seqv), (SeqC, ArrC)):
             c = st.content(seqv)
             st.env[idx_name] = z3.IntVal(0)
@@ -1094,9 +1105,11 @@ class Engine:
             def pre_body(s):
                 cc = s.content(seqv)
                 i = s.env[idx_name]
-                self.assign(n.target, self.elem(cc, i), s)
+                self.assign(n.target, (i, self.elem(cc, i)) if enum else self.elem(cc, i), s)
             test_fn = lambda s: s.env[idx_name] < s.content(seqv).n  # noqa
             return self.cut_for(n, st, spec, lid, idx_name, test_fn, pre_body, z3.IntVal(0), lambda s: s.content(seqv).n)
+        if enum:
+            raise Unsupported('enumerate over a non-abstract iterable with an invariant')
         raise Unsupported('for-loop #%d over unsupported iterable' % lid)
 
     def cut_for(self, n, st, spec, lid, idx_name, test_fn, pre_body, lo, hi_fn=None):
@@ -1346,6 +1359,16 @@ class Engine:
                 if isinstance(i, int):
                     return c.items[i]
                 raise Unsupported('symbolic index into python list of known length')
+            if isinstance(c, MapC):
+                k = to_z3(self.ev(sl, st))
+                if getattr(self.c, 'check_bounds', True):
+                    self.oblige(st, 'key-present[%s]' % ast.unparse(sl), c.dom[k], {'kind': 'KeyError'})
+                v = c.val[k]
+                if v.sort().kind() == z3.Z3_UNINTERPRETED_SORT:
+                    return Opaque(v)
+                if z3.is_real(v):
+                    return NR(v)
+                return v
             if isinstance(c, DictC):
                 k = self.ev(sl, st)
                 if not isinstance(k, (str, int, tuple)):
@@ -1402,6 +1425,12 @@ class Engine:
                     st.set_content(base, ListC(items))
                     return
                 raise Unsupported('symbolic index store into python list')
+            if isinstance(c, MapC):
+                k = to_z3(self.ev(sl, st))
+                v = value.val if isinstance(value, NR) else to_z3(value)
+                st.set_content(base, MapC(z3.Store(c.dom, k, z3.BoolVal(True)), z3.Store(c.val, k, v),
+                                          z3.If(c.dom[k], c.n, c.n + 1)))
+                return
             if isinstance(c, DictC):
                 k = self.ev(sl, st)
                 if not isinstance(k, (str, int, tuple)):
@@ -1506,7 +1535,7 @@ class Engine:
                 return len(c.items) > 0
             if isinstance(c, DictC):
                 return len(c.items) > 0
-            if isinstance(c, SeqC):
+            if isinstance(c, (SeqC, MapC)):
                 return c.n > 0
             if isinstance(c, ArrC) and z3.is_int_value(c.n) and c.n.as_long() == 1:
                 return z3.Or(c.nan_at(0), c.vals[0] != 0)
@@ -1689,10 +1718,12 @@ class Engine:
         prev = getattr(st, 'in_comprehension', None)
         st.in_comprehension = (k, c.n)
         st.comp_raises = getattr(st, 'comp_raises', [])
+        st.pc.append(z3.And(k >= 0, k < c.n))      # obligations raised for element k carry its range
         try:
             self.assign(g.target, self.elem(c, k), st)
             v = self.ev(n.elt, st)
         finally:
+            st.pc.pop()
             st.in_comprehension = prev
             st.env = saved_env
         if isinstance(v, NR):
@@ -1718,6 +1749,9 @@ class Engine:
             return ('objdict', base)
         if isinstance(base, Obj):
             path = st.canon(base.path + '.' + attr)
+            props = getattr(self.c, 'properties', None)
+            if props and path in props:
+                return props[path](self, st)
             if st.has(path):
                 return st.load(path)
             pre = path + '.'
@@ -1846,7 +1880,17 @@ class Engine:
             r = self.contains(b, a, st)
             return r if isinstance(op, ast.In) else znot(r)
         if isinstance(a, MaybeNone) or isinstance(b, MaybeNone):
-            raise Unsupported('comparison of optional value')
+            if isinstance(op, (ast.Eq, ast.NotEq)):
+                ma, mb = (a, b) if isinstance(a, MaybeNone) else (b, a)
+                if isinstance(mb, MaybeNone):
+                    inner = self.compare(ast.Eq(), ma.value, mb.value, st)
+                    r = z3.Or(z3.And(ma.isnone, mb.isnone), z3.And(z3.Not(ma.isnone), z3.Not(mb.isnone), zb(inner)))
+                elif mb is None:
+                    r = ma.isnone
+                else:
+                    r = z3.And(z3.Not(ma.isnone), zb(self.compare(ast.Eq(), ma.value, mb, st)))
+                return r if isinstance(op, ast.Eq) else z3.Not(r)
+            raise Unsupported('ordering of optional value')
         if a is None or b is None:
             if isinstance(op, ast.Eq):
                 return self.is_(a, b)
@@ -1936,6 +1980,8 @@ class Engine:
                 return item in c.items
             if isinstance(c, ListC):
                 return zor(*[zb(self.compare(ast.Eq(), item, x, st)) for x in c.items])
+            if isinstance(c, MapC):
+                return c.dom[to_z3(item)]
         if isinstance(container, str) and isinstance(item, str):
             return item in container
         h = self.c.calls.get('__contains__')
@@ -2193,6 +2239,8 @@ def _len(ex, st, args, kw, node):
             return len(c.items)
         if isinstance(c, DictC):
             return len(c.items)
+        if isinstance(c, MapC):
+            return c.n
         if z3.is_int_value(c.n):
             return c.n.as_long()
         return c.n
@@ -2210,11 +2258,11 @@ def _isinstance(ex, st, args, kw, node):
              'dict': lambda x: isinstance(x, Ref) and isinstance(st.content(x), DictC),
              'np.ndarray': lambda x: isinstance(x, Ref) and isinstance(st.content(x), ArrC),
              'tuple': lambda x: isinstance(x, tuple)}
-    if tname in table:
-        return bool(table[tname](v))
-    h = ex.lookup('isinstance:' + tname)
+    h = ex.c.calls.get('isinstance:' + tname)
     if h is not None:
         return h(ex, st, args, kw, node)
+    if tname in table:
+        return bool(table[tname](v))
     raise Unsupported('isinstance(%s)' % tname)
 
 
